@@ -492,6 +492,25 @@ def iter_pos(fr):
     return None
 
 
+def conditions_unit(ck, prog, n):
+    """used by C03 / C04: the parser MIR on all token vectors of length n (no panic) and the rendered
+    conditions loaded natively as whole rules"""
+    uni = engine.Universe()
+    ex = ck.new_engine(prog, uni=uni, summarise=())
+    ex.max_paths = 400000
+    toks, vec = TK.token_vector(prog, uni, n)
+    res = ex.explore('parse', [Ref(Cont([vec]), 0)])
+    for r in res:
+        ck.blocks |= r.blocks
+    label = 'conditions L=%d' % n
+    panics = [r for r in res if r.kind == 'panic']
+    ck.obligation(label + ': parse() never panics', uni, b_or(*[r.cond() for r in panics]) if panics else False,
+                  sample={'layer': 'parse() on token vectors', 'length': n, 'paths': len(res)},
+                  on_sat=lambda m: ('violation', ck.write_replay(safe(label) + '_panic', {'classes': [t.cls(m) for t in toks], 'panic': str(panics[0].panic)}),
+                                    '%s: parse panics on %s' % (label, [t.cls(m) for t in toks])))
+    native_conditions(ck, uni, toks, res, label)
+
+
 def parse_unit(ck, prog, n, first):
     uni = engine.Universe()
     ex = ck.new_engine(prog, uni=uni, summarise=())
@@ -578,8 +597,69 @@ def parse_unit(ck, prog, n, first):
         cv = missing[0]
         p = ck.write_replay(safe(label + '_rejected'), {'classes': cv, 'reference': str(ref_parse(cv))})
         ck.violations.append((p, '%s: the grammar accepts %s but the parser rejects it' % (label, ' '.join(c[1] or c[0] for c in cv))))
+    native_conditions(ck, uni, toks, res, label)
     if len(ck.samples) < 12 and acc:
         ck.samples.append({'vectors': label, 'accepting_paths': len(acc), 'class_vectors_compared': vectors, 'reference_vectors': count})
+
+
+def native_conditions(ck, uni, toks, res, label):
+    """model validation + C03/C04 at rule level: a sample of the parser's paths is rendered to condition text and the
+    *whole rule* is loaded natively (every identifier defined): no panic; the rule loads iff the parser MIR accepted
+    and the tree is a predicate.  For accepted conditions each identifier in turn is left undefined: the loader must
+    then reject the rule."""
+    import random
+    rnd = random.Random(ck.seed + len(res))
+    br = ck.bridge()
+    acc = [r for r in res if r.kind == 'return' and r.value.vname == 'Ok']
+    rej = [r for r in res if r.kind == 'return' and r.value.vname == 'Err']
+    sample = acc[:25] + (rnd.sample(rej, 25) if len(rej) > 25 else rej)
+    n = len(toks)
+    for r in sample:
+        rr, model = ck.solve(uni, *r.pc)
+        if rr != 'sat':
+            continue
+        cv = tuple(t.cls(model) for t in toks)
+        cond = render_condition(cv, toks, model)
+        if not cond:
+            continue
+        names = ['x%d' % i for i in range(n) if cv[i][0] == 'Identifier']
+        # identifiers that are operands of int()/flt()/str()/not() are field names, not identifiers of the rule
+        fields = {('x%d' % (i + 2)) for i in range(n - 2) if cv[i][0] == 'Modifier'}
+        idents = [x for x in names if x not in fields]
+
+        def rule_text(defined):
+            return 'detection:\n' + ''.join('  %s:\n    f: a\n' % x for x in defined) + '  ZZ:\n    f: a\n  condition: %s\ntrue_positives: []\ntrue_negatives: []\n' % cond
+        y = rule_text(idents)
+        nat = br.call(cmd='load', yaml=y, opts=None)
+        ck.extra['conditions_loaded_natively'] = ck.extra.get('conditions_loaded_natively', 0) + 1
+        if 'panic' in nat:
+            ck.obligations += 1
+            p = ck.write_replay(safe(label + '_load_' + cond), {'rule': y, 'native': nat})
+            ck.violations.append((p, 'loading a rule with condition %r panics: %s' % (cond, nat['panic'][:160])))
+            continue
+        accepted = r.value.vname == 'Ok'
+        pred = accepted and solvable(r.value.items[0])
+        if bool(nat.get('ok')) != bool(pred):
+            # the tokeniser may read the rendered text differently (e.g. a keyword followed by an identifier); only
+            # report when the native token classes are the ones we rendered
+            tk = br.call(cmd='tokenise', s=list(cond.encode()))
+            if tk.get('ok') and len(tk['tokens']) == n:
+                ck.inconclusive.append('%s: condition %r: parser MIR says %s, native loader says %s' % (label, cond, 'accept' if pred else 'reject', nat))
+            continue
+        ck.replays_ok += 1
+        if not pred:
+            continue
+        for miss in idents[:3]:
+            y2 = rule_text([x for x in idents if x != miss])
+            nat2 = br.call(cmd='load', yaml=y2, opts=None)
+            ck.obligations += 1
+            if 'panic' in nat2 or nat2.get('ok'):
+                # accepted although `miss` is not defined: evaluate to show what happens
+                ev = br.call(cmd='eval', yaml=y2, opts=None, doc={'$obj': [[[102], {'$str': [97]}]]}, mode='flat') if nat2.get('ok') else nat2
+                p = ck.write_replay(safe(label + '_undef_' + cond), {'rule': y2, 'undefined': miss, 'native_load': nat2, 'native_eval': ev})
+                ck.violations.append((p, 'condition %r mentions %s which the rule does not define, yet the rule loads (evaluation: %s)' % (cond, miss, ev)))
+            else:
+                ck.discharged += 1
 
 
 _LANG = {}
